@@ -4,6 +4,7 @@ CONSTANTS
   Templates <- TplC17d
   Bundles <- NoBundle
   Ctxs <- WideTightNone
+  Tries <- One
   Hists <- NoHist
   BackoffCfgs <- NoBoCfgs
   Attempts <- BoAttempts
